@@ -334,10 +334,25 @@ func (p *queryPlan) processClause(ctx context.Context, cls *semantic.GraphClause
 		if err != nil {
 			return false, err
 		}
-		if err := p.tbl.AppendTable(tbl); err != nil {
-			return b, err
+		if len(p.tbl.Bindings()) == 0 {
+			// No clause has provided bindings so far.
+			if err := p.tbl.AppendTable(tbl); err != nil {
+				return b, err
+			}
+			return b, nil
 		}
-		return b, nil
+		// The rows obtained from the previous clauses are kept only if the
+		// triple exists, extended with the aliases of this clause if any.
+		if cls.Optional {
+			return false, p.tbl.LeftOptionalJoin(tbl)
+		}
+		if b {
+			return true, nil
+		}
+		if len(tbl.Bindings()) == 0 {
+			return false, nil
+		}
+		return false, p.tbl.DotProduct(tbl)
 	}
 
 	exist, total := 0, 0
